@@ -111,3 +111,12 @@ Theorem C02_ising_heatbath_pipeline_stationary : forall g beta L,
         (pipeline_cfg_v (update_cfg (hb_update (ising_ham g) (bond_weights (ising_ham g)) beta))).
 Proof. exact ising_heatbath_pipeline_stationary. Qed.
 Print Assumptions C02_ising_heatbath_pipeline_stationary.
+
+(* the heat-bath pipeline with the model's OWN cluster update (decomposition proved valid, no wrapper) *)
+From QmcV Require Import Proofs.UnconditionalPipeline.
+Theorem C02_ising_model_heatbath_pipeline_stationary : forall g beta L,
+  has_long g = false -> ising_edges_ok g = true -> 0 < beta ->
+  wstat (canon (ising_ham g) (all_substates (i_nvars g)) L) (fun c => sse_weight (ising_ham g) beta (snd c))
+        (pipeline_cfg (update_cfg (hb_update (ising_ham g) (bond_weights (ising_ham g)) beta))).
+Proof. exact ising_model_heatbath_pipeline_stationary. Qed.
+Print Assumptions C02_ising_model_heatbath_pipeline_stationary.
